@@ -10,6 +10,7 @@ import (
 	"path/filepath"
 	"sort"
 	"strings"
+	"time"
 
 	NoKV "github.com/feichai0017/NoKV"
 	"github.com/feichai0017/NoKV/kv"
@@ -27,15 +28,17 @@ type txnCfg struct {
 	MaxCount int64 `json:"max_count"`
 	MaxSize  int64 `json:"max_size"`
 	VThr     int64 `json:"vthr"`
+	Batch    bool  `json:"batch,omitempty"` // WriteBatchWait > 0: concurrent commits share a commit batch
 }
 
-// txnOp: kind in begin|get|set|del|commit|commitwith|discard|close|reopen|dump
+// txnOp: kind in begin|get|set|del|commit|commitwith|commitbatch|discard|close|reopen|failwal|dump
 type txnOp struct {
 	Kind   string `json:"k"`
 	ID     int    `json:"id,omitempty"`
 	Update bool   `json:"u,omitempty"`
 	Key    int    `json:"key,omitempty"`
 	Val    string `json:"v,omitempty"`
+	IDs    []int  `json:"ids,omitempty"` // commitbatch: CommitWith on these handles in order, then wait for all
 }
 
 type txnDesc struct {
@@ -75,6 +78,9 @@ func openTxnDB(dir string, g txnCfg) *NoKV.DB {
 	opt.ValueLogBucketCount = 1
 	opt.ValueLogHotBucketCount = 0
 	opt.WriteBatchWait = 0
+	if g.Batch {
+		opt.WriteBatchWait = 2 * time.Millisecond
+	}
 	opt.DetectConflicts = g.Detect
 	opt.MaxBatchCount = g.MaxCount
 	opt.MaxBatchSize = g.MaxSize
@@ -98,6 +104,8 @@ func classifyTxnErr(err error) string {
 		return "(RErr EDiscarded)"
 	case strings.Contains(err.Error(), "Trying to commit a discarded txn"):
 		return "(RErr ECommitDiscarded)"
+	case strings.Contains(err.Error(), "writeRequests"):
+		return "(RErr EApply)" // commitWorker: applyRequests failed for this request
 	}
 	return "ROther"
 }
@@ -146,11 +154,16 @@ func execTxn(c *corr.Ctx, d txnDesc) corr.Case {
 	defer os.RemoveAll(dir)
 	db := openTxnDB(dir, d.Cfg)
 	closed := false
+	walBroken := false
 	defer func() {
 		if !closed {
-			db.Close()
+			func() {
+				defer func() { _ = recover() }() // closing over a broken WAL may fail; the directory is removed anyway
+				db.Close()
+			}()
 		}
 	}()
+	_ = walBroken
 	var txns [8]*NoKV.Txn
 	var live [8]bool
 	terms := make([]string, 0, len(d.Ops))
@@ -213,6 +226,39 @@ func execTxn(c *corr.Ctx, d txnDesc) corr.Case {
 			}
 			live[o.ID] = false
 			term = fmt.Sprintf("C %d %s", o.ID, ob)
+		case "commitbatch":
+			// CommitWith takes the commit timestamp and enqueues synchronously, in this order; the
+			// requests then sit in one commit batch (WriteBatchWait). Reported as consecutive commits.
+			chans := make([]chan error, len(o.IDs))
+			for i, id := range o.IDs {
+				ch := make(chan error, 1)
+				chans[i] = ch
+				txns[id].CommitWith(func(e error) { ch <- e })
+			}
+			var ts []string
+			for i, id := range o.IDs {
+				err := <-chans[i]
+				r := classifyTxnErr(err)
+				if err == nil {
+					commitsOK++
+				} else {
+					errs++
+					if errors.Is(err, utils.ErrConflict) {
+						conflicts++
+					}
+				}
+				live[id] = false
+				ts = append(ts, fmt.Sprintf("C %d %s", id, r))
+				obs = append(obs, r)
+			}
+			terms = append(terms, ts...)
+			continue
+		case "failwal":
+			// fault injection: the write-ahead log can no longer be appended to, so applying a
+			// request to the LSM fails after its value-log write
+			_ = db.WAL().Close()
+			walBroken = true
+			term, ob = "Fw", "RNil"
 		case "discard":
 			txns[o.ID].Discard()
 			live[o.ID] = false
@@ -372,12 +418,79 @@ func genTxn(r *rand.Rand, prop string) txnDesc {
 	return d
 }
 
+// genApplyFailure: a few commits, then the WAL is broken, then single and batched commits whose
+// application must fail; reads and dumps through the same DB handle afterwards.
+func genApplyFailure(r *rand.Rand) txnDesc {
+	d := txnDesc{Cfg: txnCfg{Detect: r.Intn(2) == 0, MaxCount: 64, MaxSize: 1 << 20, VThr: 1024, Batch: true}}
+	if r.Intn(3) == 0 {
+		d.Cfg.VThr = 32
+	}
+	valc := 0
+	val := func() string {
+		valc++
+		s := fmt.Sprintf("v%d", valc)
+		if r.Intn(4) == 0 {
+			s += strings.Repeat("y", 40) // above a value threshold of 32: goes through the value log
+		}
+		return s
+	}
+	writer := func(id int) {
+		d.Ops = append(d.Ops, txnOp{Kind: "begin", ID: id, Update: true})
+		for j, m := 0, 1+r.Intn(3); j < m; j++ {
+			if r.Intn(5) == 0 {
+				d.Ops = append(d.Ops, txnOp{Kind: "del", ID: id, Key: r.Intn(len(txnKeys))})
+			} else {
+				d.Ops = append(d.Ops, txnOp{Kind: "set", ID: id, Key: r.Intn(len(txnKeys)), Val: val()})
+			}
+		}
+	}
+	for i, m := 0, r.Intn(3); i < m; i++ {
+		writer(0)
+		d.Ops = append(d.Ops, txnOp{Kind: "commit", ID: 0})
+	}
+	if r.Intn(2) == 0 { // a healthy batch first
+		writer(0)
+		writer(1)
+		d.Ops = append(d.Ops, txnOp{Kind: "commitbatch", IDs: []int{0, 1}})
+	}
+	d.Ops = append(d.Ops, txnOp{Kind: "failwal"})
+	for round, m := 0, 1+r.Intn(3); round < m; round++ {
+		switch r.Intn(3) {
+		case 0:
+			writer(0)
+			d.Ops = append(d.Ops, txnOp{Kind: "commit", ID: 0})
+		case 1:
+			writer(1)
+			d.Ops = append(d.Ops, txnOp{Kind: "commitwith", ID: 1})
+		default:
+			n := 2 + r.Intn(3)
+			var ids []int
+			for id := 0; id < n; id++ {
+				writer(id)
+				ids = append(ids, id)
+			}
+			d.Ops = append(d.Ops, txnOp{Kind: "commitbatch", IDs: ids})
+		}
+		d.Ops = append(d.Ops, txnOp{Kind: "begin", ID: 5, Update: false})
+		for k := range txnKeys {
+			d.Ops = append(d.Ops, txnOp{Kind: "get", ID: 5, Key: k})
+		}
+		d.Ops = append(d.Ops, txnOp{Kind: "discard", ID: 5})
+	}
+	for k := range txnKeys {
+		d.Ops = append(d.Ops, txnOp{Kind: "dump", Key: k})
+	}
+	return d
+}
+
 func runTxn(c *corr.Ctx) error {
 	c.Meta("run_module", "RunTxn")
 	c.Meta("exhaustive", false)
 	c.Meta("rule", "random call-by-call interleavings of 2-4 logical transactions (begin/get/set/delete/commit/commitWith/discard, "+
 		"calls on finished handles, Close, reopen) over 4 colliding keys on a real DB in a temp dir; DetectConflicts on and off; "+
-		"MaxBatchCount in {3,4,5,64}, MaxBatchSize in {90,150,260,1MiB}, ValueThreshold in {32,1024}; every call result and the "+
+		"MaxBatchCount in {3,4,5,64}, MaxBatchSize in {90,150,260,1MiB}, ValueThreshold in {32,1024}; plus apply-failure scenarios "+
+		"(the WAL is closed under the engine, then single Commit / CommitWith and batches of 2-4 CommitWith sharing one commit batch, "+
+		"read back through the same DB); every call result and the "+
 		"final versions of every key are compared with the model and with the trace / version oracles. non-trivial = a commit "+
 		"succeeded while another transaction was live, or a commit failed; distinct by Gallina term")
 	if c.Replay != "" {
@@ -403,6 +516,11 @@ func runTxn(c *corr.Ctx) error {
 	n := c.Scale(200, 8000)
 	for i := 0; i < n; i++ {
 		c.Emit(execTxn(c, genTxn(c.Rng, c.Prop)))
+	}
+	// apply failures in the commit worker (closed WAL), single and batched commits
+	for i, m := 0, c.Scale(30, 800); i < m; i++ {
+		c.Count("apply_failure_scenarios")
+		c.Emit(execTxn(c, genApplyFailure(c.Rng)))
 	}
 	return nil
 }
